@@ -216,8 +216,8 @@ func (c *corpus) extractRepo(root string) {
 				continue
 			}
 			pk, rest := splitPackets(b)
-			if len(pk) == 0 || len(rest) != 0 {
-				continue
+			if len(pk) == 0 || len(rest) > len(b)/2 {
+				continue // not a packet sequence (a well-framed prefix of at least half the bytes is required)
 			}
 			k := sniffKind(b)
 			if k == "" {
